@@ -10,7 +10,7 @@ CONFIG = {
         "permission check (caller SYSOP sees every board: C07), user lookup, shared-memory attachment, base64/strings.Split of the by-class cursor, cache.GetBTotalWithRetry in front of / behind the listing loops: exercised, not modelled beyond the cursor round-trip",
         "types.Cstrcmp / Cstrcasecmp / CstrCaseHasPrefix: modelled and proved equal to strcmp/strcasecmp in property C18 (Model/C18.lean, Proofs/C18.lean), imported",
     ],
-    "modelled": ["cache.GetBid", "cache.getBidByNameCore", "cache.getBidByClassCore", "cache.FindBoardIdxByName", "cache.FindBoardIdxByClass",
+    "modelled": ["cache.ReloadBCache / reloadBCacheCore / SortBCache (busy-flag protocol of a single loader)", "cache.GetBid", "cache.getBidByNameCore", "cache.getBidByClassCore", "cache.FindBoardIdxByName", "cache.FindBoardIdxByClass",
                  "cache.cmpBoardByClass", "cache.FindBoardAutoCompleteStartIdx", "cache.findBoardClosetKeyword", "ptttype.BoardTitle_t.BoardClass",
                  "ptttype.Bid.IsValid", "ptt.LoadGeneralBoards", "ptt.LoadAutoCompleteBoards", "ptt.loadGeneralBoardStat / loadAutoCompleteBoardStat (vacated / group / prefix tests)",
                  "bbs.LoadGeneralBoards", "bbs.LoadAutoCompleteBoards", "ptt.LoadGeneralBoardDetails", "bbs.LoadGeneralBoardDetails", "ptt.LoadFullClassBoards", "bbs.LoadFullClassBoards (next_bid)",
@@ -22,6 +22,7 @@ CONFIG = {
         "BSorted[byName]/[byClass] are sorted permutations of [0, BNumber) (checked on every reload; sort.Sort trusted)",
         "listings are driven as SYSOP with empty title/keyword filters and page sizes >= 1; page sizes <= 0 (makeslice / summaries[-1] panics, a walk that never advances) are compared with the model but not judged; the class listings are driven on freshly reloaded tables (child links zero); board creation itself (CreateBoard, which puts a new class into the last slot) is property C12 — the states it produces (a class in the last slot, in every slot) are enumerated directly; a board that is its own Gid is not judged",
         "keywords with NUL bytes have no defined answer: compared with the model only",
+        "ReloadBCache is driven with a single process attached: a BBusyState found set can only be the leftover of a dead loader (two live loaders racing on the flag are outside this check)",
         "LoadClassBoards is judged on tables that do not change between requests (every sub-class, whatever ChildCount was stored, the same on every request: key list:children+cap); a cache write that neither re-sorts nor re-resolves (cache.ResetBoard without SortBCache) is outside the histories driven",
         "bbs.LoadGeneralBoardDetails (after fix 6f287ee) lists every non-vacated slot (no group/permission filter); its page walk is judged on all in-domain tables, vacated slots included (keys walk:details-name+vacated, walk:details-class+vacated)",
     ],
